@@ -86,6 +86,15 @@ CLAIMS = {
         note=BASE_NOTE + "The theorem is about the transliterated entry points (duringAdvance/duringThe); that the mode is read "
              "only by hybrid_new / predicate.wrapper is an assumption checked by the correspondence, not proved.",
         tech="Lean 4 proof (frame lemma over the evaluator entry points) + differential correspondence across ambient modes"),
+    'C14': dict(
+        text="Registry.lean transliterates hybrid_new / instantiate_class_and_update_cache / get_cache_keys_for_class_ / "
+             "yield_class_values_from_cache. For every hierarchy (arbitrary `sub`) and every history of concrete / symbolic "
+             "constructions, inference and clears: c14_registry (query = logged constructions of T and subclasses since the last "
+             "clear), c14_each_once, c14_symbolic_inert, c14_inits. Correspondence: identity sets vs the harness's own log over "
+             "random hierarchies, construction styles, inference and clearing.",
+        note=BASE_NOTE + "Reading: declare-and-evaluate atomically (observe_at). Construction styles are identified in the model "
+             "(they reach the same patched __new__); that is checked by correspondence.",
+        tech="Lean 4 proof (invariant by induction over operation histories) + identity-level differential correspondence"),
 }
 
 ALL = ['C%02d' % i for i in range(1, 21)]
